@@ -28,11 +28,11 @@ instance : (bs : Bytes) → Decidable (IsLebEnc bs)
 /-- every byte has the continuation bit (an unfinished number) -/
 def AllCont (bs : Bytes) : Prop := ∀ b ∈ bs, 128 ≤ b.toNat
 
-/-- signed value: the unsigned value, minus 128^n when the sign bit (bit 6 of the last group)
-is set. -/
-def slebVal (bs : Bytes) : Int :=
-  if (ulebVal bs / 2 ^ (7 * bs.length - 1)) % 2 = 1
-  then (ulebVal bs : Int) - 2 ^ (7 * bs.length)
-  else (ulebVal bs : Int)
+/-- signed value of a sequence of LEB128 groups: two's complement, sign-extended from bit 6 of the
+last group: Σ (bᵢ mod 128)·128^i, minus 128^n when the last group has its sign bit set. -/
+def slebVal : Bytes → Int
+  | [] => 0
+  | [b] => if 64 ≤ b.toNat % 128 then (b.toNat % 128 : Int) - 128 else (b.toNat % 128 : Int)
+  | b :: c :: rest => (b.toNat % 128 : Int) + 128 * slebVal (c :: rest)
 
 end Gimli.Spec
